@@ -92,7 +92,10 @@ func (g *G) decision(scope string, dom []int) (string, string) {
 }
 
 func (g *G) task(scope string) (string, string) {
-	if g.f.Throws && g.r.Intn(6) == 0 {
+	// (not inside an embedded sub-process: the engine deliberately triggers the throw events of a
+	// sub-process together with its start events -- "startAll ... triggering all start events and
+	// throw events" -- which is outside what C12 states about inlined content)
+	if g.f.Throws && scope == "" && g.r.Intn(6) == 0 {
 		g.tag("throw")
 		h := g.b.AddNode("throw", scope)
 		g.b.N(h).Evs = []prog.EvDef{{K: "signal", Ref: "Z"}}
